@@ -261,7 +261,14 @@ class SubQueryLineageHolder(ColumnLineageMixin):
         # remove wildcard, the target one only when no other source wildcard feeds it, e.g. the t1.* -> tgt.* of
         # SELECT * FROM t1 JOIN (SELECT c FROM t2) q has to survive the expansion of q.*
         if self.graph.has_node(src_wildcard):
-            self.graph.remove_node(src_wildcard)
+            if self.graph.has_edge(src_wildcard, tgt_wildcard):
+                self.graph.remove_edge(src_wildcard, tgt_wildcard)
+            # the source wildcard can feed other columns too, like n in SELECT count(*) AS n, t.* FROM t
+            if not any(
+                edge_type == EdgeType.LINEAGE
+                for _, _, edge_type in self.graph.out_edges(src_wildcard, data="type")
+            ):
+                self.graph.remove_node(src_wildcard)
         if self.graph.has_node(tgt_wildcard) and not self.get_source_columns(
             tgt_wildcard
         ):
